@@ -7,7 +7,7 @@ ALL = ["C%02d" % i for i in range(1, 21)]
 CHECKS = {
   "C08": dict(
     technique="property-based testing with a recording generator (proptest): the source generator records every dependency it writes with its byte range; the analyser's report must equal the record; position lookup through a one-module graph; round trip of every reported range over the repository's spec corpus, a metamorphic trivia-insertion layer over mutated corpus sources, and (thorough tier) a coverage-guided libFuzzer target with the range round-trip oracle inside",
-    text="Generated programs over every dependency-bearing form for 7 media types with non-ASCII / astral trivia, CRLF, shebang, escapes, templates, nesting in functions / classes / namespaces / declare-module blocks, pragma styles and JSDoc forms. Oracles: the multiset of reported dependencies (kind, cooked text, attributes, dynamic argument shape, types pragma) equals the record - every one once, nothing else; each reported range converted with an independent line/character counter equals the recorded byte range; Dependency::includes finds exactly the owning dependency and its range for positions inside a site; corpus layer: the source slice at every reported range is the specifier; mutated-corpus layer (metamorphic): inserting trivia (a comment line with non-ASCII / astral / U+2028 text, a comment before an import or export statement, a shebang, CR before every LF) into a corpus source leaves the reported dependencies unchanged and moves every reported range by exactly the bytes inserted before it. Exploration only.",
+    text="Generated programs over every dependency-bearing form for 11 media types (incl. CommonJS flavours and .d.mts / .d.cts) with non-ASCII / astral trivia, CRLF, shebang, escapes, templates, nesting in functions / classes / namespaces / declare-module blocks, pragma styles and JSDoc forms. Oracles: the multiset of reported dependencies (kind, cooked text, attributes, dynamic argument shape, types pragma) equals the record - every one once, nothing else; each reported range converted with an independent line/character counter equals the recorded byte range; Dependency::includes finds exactly the owning dependency and its range for positions inside a site; corpus layer: the source slice at every reported range is the specifier; mutated-corpus layer (metamorphic): inserting trivia (a comment line with non-ASCII / astral / U+2028 text, a comment before an import or export statement, a shebang, CR before every LF) into a corpus source leaves the reported dependencies unchanged and moves every reported range by exactly the bytes inserted before it. Exploration only.",
     design_ref="DESIGN.md §4 C08",
     note="Trusted: the generator's own bookkeeping of byte offsets; swc as the parser on the implementation side only.",
   ),
@@ -61,7 +61,7 @@ CHECKS = {
   ),
   "C01": dict(
     technique="property-based testing against a reference model (proptest): recorded dependencies vs what the structured sources declare; per-entry prediction from the world; model-free closure (nothing unreachable present, nothing reachable absent)",
-    text="Worlds are generated as structured sources (the model never parses text). For every built graph: (a) each module's dependency map (text, code/type target, attribute, static-vs-dynamic, import kinds, types dependency, source map) equals engine/src/refmodel.rs under the resolver and graph kind in use; (b) every entry's kind is one the world allows and every redirect is one the loader gave; (c) every entry is reachable from roots/configured imports along followed edges and every followed target has an entry. Exploration only; jsr: specifiers are left to C06/C07.",
+    text="Worlds are generated as structured sources (the model never parses text). For every built graph: (a) each module's dependency map (text, code/type target, attribute, static-vs-dynamic, import kinds, types dependency, source map) equals engine/src/refmodel.rs under the resolver and graph kind in use; (b) every entry's kind is one the world allows (exactly predicted for targets whose every request carries `type: "json"`: JSON is a module, anything else an assertion error) and every redirect is one the loader gave; (c) every entry is reachable from roots/configured imports along followed edges and every followed target has an entry. Exploration only; jsr: specifiers are left to C06/C07.",
     design_ref="DESIGN.md §4 C01",
     note="Trusted: the reference model (DESIGN Appendix A.2), deno_path_util URL resolution, deno_media_type media-type mapping, the renderer. Context-sensitive acceptance through two requests is a known finding.",
   ),
@@ -73,7 +73,7 @@ CHECKS = {
   ),
   "C20": dict(
     technique="property-based testing against a reference decoder (proptest): stored text, original bytes and size vs a WHATWG-transcribed decoder over generated byte strings x charset labels x module shapes",
-    text="Generated byte strings (UTF-8/UTF-16LE/BE/windows-1252 encodings of text with BOM variants, inserted invalid bytes, truncation) served under 15 charset labels or none, as local/remote JSON roots, TypeScript roots and attributed JSON imports. Stored text must equal the reference decoding with the BOM removed, unsupported labels must give a decode error and no module, try_get_original_bytes() is None or the exact supplied bytes, serialised size = text byte length. Exploration only.",
+    text="Generated byte strings (UTF-8/UTF-16LE/BE/windows-1252 encodings of text with BOM variants, inserted invalid bytes, truncation) served under 15 charset labels or none, as local/remote JSON roots, TypeScript roots, attributed JSON imports and (plain UTF-8 with or without BOM) files of a JSR package with / without embedded module information. Stored text must equal the reference decoding with the BOM removed, unsupported labels must give a decode error and no module, try_get_original_bytes() is None or the exact supplied bytes, serialised size = text byte length. Exploration only.",
     design_ref="DESIGN.md §4 C20",
     note="Trusted: the reference decoder in engine/src/props/c20.rs (covers exactly the generated labels). Quoted charset parameters are not generated.",
   ),
@@ -98,7 +98,7 @@ CHECKS = {
   ),
   "C15": dict(
     technique="property-based testing against a reference model (proptest): ModuleGraph::walk vs a set-based reachability model over the graph's recorded dependencies, all 36 option combinations per graph",
-    text="Generated-input search with a reference-model oracle: the yielded set (both inclusions, no duplicates), the entry attached to each yielded specifier and the multiset of reported errors are compared with engine/src/refwalk.rs for every option combination, drawn root subsets and skip sets. Exploration: bounded by the generated graphs.",
+    text="Generated-input search with a reference-model oracle: the yielded set (both inclusions, no duplicates), the entry attached to each yielded specifier and the multiset of reported errors are compared with engine/src/refwalk.rs for every option combination, drawn root subsets and skip set; a quarter of the graphs are generated registry packages on which fast check has run (fast-check dependency maps)s. Exploration: bounded by the generated graphs.",
     design_ref="DESIGN.md §4 C15",
     note="Trusted: proptest; the reference walk (written from the WalkOptions rustdoc and the statement); graphs come from the shared world generator.",
   ),
@@ -110,7 +110,7 @@ CHECKS = {
   ),
   "C19": dict(
     technique="property-based testing over generated histories (proptest): sequences of build() calls, rebuilds and edit+reload() rounds vs from-scratch builds",
-    text="Generated histories (partition of the roots into successive builds, rebuild of a known root, up to three rounds of source edits each followed by reload of the changed specifiers) checked against a from-scratch build of the same / the edited sources: equal entries, serialised modules and redirects for everything the fresh graph contains, untouched entries byte-identical, no loads and no change when a known root is built again. Exploration only.",
+    text="Generated histories (partition of the roots into successive builds, rebuild of a known root, up to three rounds of source edits each followed by reload of the changed specifiers, named by their final specifier or by the head of a recorded redirect chain) checked against a from-scratch build of the same / the edited sources: equal entries, serialised modules and redirects for everything the fresh graph contains, untouched entries byte-identical, no loads and no change when a known root is built again. Exploration only.",
     design_ref="DESIGN.md §4 C19",
     note="Trusted: proptest and the harness loader. Worlds carry no `type` attributes or source-map URLs (the attribute class of a target must be stable over time); context-sensitive acceptance divergences are known findings.",
   ),
